@@ -49,6 +49,9 @@ CLAIMS = {
  "C11": ("exact table rule on the refresh form, call-site facts (expired ∧ refresh token present), per-field total-and-guarded merge rule enumerated from the TokenResponse type, refresh-helper summary (exchange OK ∧ validator true), outcome rules on Process",
          "Decides that the refresh grant carries the refresh token just read from the store with the configured client credentials, that every TokenResponse field is merged (new under its guard, else stored; new values are actually taken), that a non-nil result was validated, and that failure removes the stale session via the login redirect while success stores and allows the same merged object. Behaviour over many lifetimes against the provider's ledger is not modelled.",
          "go/ssa model; C05.R1 for removal in the redirect helper"),
+ "C08": ("loop-shape rules on Check (forward range counters, no reordering), CFG outcome rules (first match final, non-match continues, default deny), type-switch exhaustiveness against the generated oneof with per-arm provenance, branch-fact rules on the criterion function",
+         "Decides that chains and filters are visited in configuration order, that after a matching chain no later chain is reachable, that every surviving filter kind has an arm building the judging handler from that filter's own configuration, that the fall-through is deny unless unmatched requests are allowed, and that the criterion is nil/equality/prefix on the lower-cased header with the header value as subject. Equivalence with a reference evaluator over all layouts is not established.",
+         "go/ssa model; C01.R5 for the per-filter loop; C17.R3 for the eliminated override kind"),
 }
 
 NOT_YET = "check under construction in this round; see DESIGN.md section 4 for the planned static rules"
